@@ -65,6 +65,11 @@ def brownian_programs():
     P.append(Prog('reverse_bm', 'Brownian', pb.reverse_bm,
                   lambda rng: dict(ta=-rng.uniform(1, 2), tb=-rng.uniform(0, 1), Wb=rng.gauss(0, 1), Ub=rng.gauss(0, 1)),
                   props=('C03',)))
+    P.append(Prog('reverse_bm_UA', 'Brownian', pb.reverse_bm_UA,
+                  lambda rng: dict(ta=-rng.uniform(1, 2), tb=-rng.uniform(0, 1), Wb=np.array([[rng.gauss(0, 1), rng.gauss(0, 1)]]),
+                                   Ub=np.array([[rng.gauss(0, 1), rng.gauss(0, 1)]]),
+                                   Ab=np.array([rng.gauss(0, 1) for _ in range(4)]).reshape(1, 2, 2)),
+                  props=('C03',), note='both return_U and return_A in one call'))
     return P
 
 
